@@ -90,7 +90,7 @@ func seqPart(w *vc.Writer, r *vc.Rand) {
 	n := vc.Scale(120, 5000)
 	for h := 0; h < n; h++ {
 		rr := r.Fork()
-		srv := &vrefl.Server{V1: true, Alpha: true, FailStep: -1, Policy: []int{0, 1, 2, 3, 4, 7, 1, 7}[rr.Intn(8)]}
+		srv := &vrefl.Server{V1: true, Alpha: true, FailStep: -1, Policy: []int{0, 1, 2, 3, 4, 7, 1, 7, 8}[rr.Intn(9)]}
 		cur := rr.Intn(8)
 		polls := vc.L{}
 		// configure the FIRST poll before the resolver starts (Build polls at once)
